@@ -105,6 +105,50 @@ CHECKS["C11"] = dict(engine="exsim", level="exploration", design_ref="3/C11",
          "reference when exactly one order changed in the interval.",
     note=_EXSIM_NOTE)
 
+_DISPX_NOTE = ("Handlers, producers and jobs are cooperative coroutines written by the harness; interleavings come from "
+               "suspension points, pool sizes, subscription orders and the timing of external actions - the event "
+               "loop's ready queue is never permuted. " + COMMON_NOTE)
+CHECKS["C03"] = dict(engine="dispx", level="exploration", design_ref="4/C03",
+    technique="runtime monitoring: recording proxy stamps every accepted order with the dispatcher clock and checks "
+              "every fill event's timestamp; differential execution of the same strategy under 6 pool sizes x 2 "
+              "repetitions x 4+ interpreters with different PYTHONHASHSEED, comparing digests of the normalised history",
+    text="Clause 1 is an online monitor over order events of generated multi-source strategies (random setup order, "
+         "derived sources, suspension points). Clause 2 is a differential oracle that needs no expected value: the "
+         "same strategy must produce the same normalised history for every pool size, hash seed and repetition.",
+    note="Clause 2 only for non-suspending handlers; orders identified by creation order. " + _DISPX_NOTE)
+CHECKS["C12"] = dict(engine="dispx", level="exploration", design_ref="4/C12",
+    technique="runtime monitoring: handler invocation trace (start/resume/end, event time, dispatcher clock) of "
+              "generated scenarios on the real BacktestingDispatcher, checked offline for exactly-once, global time "
+              "order, stage order, clock equality and monotonicity",
+    text="Thousands of generated scenarios (1-8 sources with ties, derived sources fed by handlers, sniffers, duplicate "
+         "subscriptions, 0-4 suspension points, raising handlers, pool sizes incl. fewer slots than sources); the "
+         "number of distinct interleaving signatures observed is reported.",
+    note=_DISPX_NOTE)
+CHECKS["C13"] = dict(engine="dispx", level="exploration", design_ref="4/C13",
+    technique="runtime monitoring: job/handler invocation trace on the real BacktestingDispatcher checked offline for "
+              "exactly-once, clock >= due time, pairwise order of jobs pending together, order w.r.t. events; all "
+              "insertion orders of small job multisets enumerated",
+    text="Random scenarios plus an exhaustive sweep of every insertion order of every multiset of up to 4 job slots "
+         "(and all permutations of 5) around and beyond the event times, jobs scheduled from handlers and jobs, "
+         "raising jobs.",
+    note="'Non-decreasing order' is read for jobs pending at the same moment. " + _DISPX_NOTE)
+CHECKS["C14"] = dict(engine="dispx", level="fault_enumeration", design_ref="4/C14",
+    technique="runtime monitoring under a virtual-time loop: producer phase trace, in-flight counter, outcome of run(), "
+              "log record factory identity; exhaustive enumeration of dispatcher x exit path x failing producer phase "
+              "x instant, crossed with random schedules; icontract post-condition on TaskPool.push",
+    text="The fault space (125 points) is small and is enumerated completely in both tiers; each point is crossed with "
+         "random schedules (pool sizes, competing due events / jobs / idle handlers, handler durations). The oracle is "
+         "a lifecycle automaton plus the set of allowed outcomes, decided on virtual time.",
+    note="Double faults (a second fault while already finalising) are outside the enumerated product. " + _DISPX_NOTE)
+CHECKS["C15"] = dict(engine="dispx", level="exploration", design_ref="4/C15",
+    technique="runtime monitoring under a virtual-time loop (utc_now substituted): handler/job trace stamped with the "
+              "virtual clock, checked for never-early, per-source order with drop+report of older events, exactly "
+              "once, idle-only-when-idle and bounded progress",
+    text="'Eventually dispatched' is decided as bounded progress in virtual time (deadline derived from the scripted "
+         "handler durations; 0.1 s lateness bound with an unsaturated pool). Unbounded liveness is out of reach of "
+         "any finite run and is not claimed.",
+    note=_DISPX_NOTE)
+
 NOT_YET = {}
 
 
